@@ -39,7 +39,18 @@ MANIFEST = {
             "record layer, virtual clock, scripted wire) with a burst of 1..6 CON/NON submitted at the moment the session is "
             "ESTABLISHED, losses / duplicates among the application records: the same NSTART clauses and ledger on the client "
             "session's counters after every libcoap entry point, tied segment by segment to Model/TlsGate.lean (tie + observation: "
-            "no C08 theorem ranges over that model).",
+            "no C08 theorem ranges over that model).  (Round 6) FAILING SOCKET WRITES: over the write-failure model "
+            "Model/MsgLayerW.lean (coap_socket_send may return -1 for any datagram; the list of results is one more universally "
+            "quantified input) wf_step_w / con_active_eq_inflight_le_nstart_w (con_active = Confirmables in the send queue <= NSTART "
+            "for every event sequence and every pattern of failing writes), released_con_takes_slot_whatever_the_write_returns (a "
+            "Confirmable that coap_session_connected takes out of the delay queue is queued for retransmission by coap_wait_ack AND "
+            "counted, whatever the write returned), drain_with_failing_writes_is_drain_stopped_early + held_fifo_exactly_once_w(_run) "
+            "(the delay queue still evolves only by append-at-end / head-leaves-exactly-when-its-write-is-attempted / clear: a failing "
+            "write lets nobody overtake), no_idle_hold_w_partial (no idle hold as long as no first transmission failed; the full "
+            "statement is false for the code as it is - the drain loop stops at a failing write - see the open finding "
+            "drain_break_strands_delayed); tied on lines with `x` fates (the k-th write of every burst failing, random failures in "
+            "every c08 scenario, new submissions after a failed release) and judged on the implementation's trace: con_active = queued "
+            "<= NSTART after every event, first write ATTEMPTS in submission order, in flight from the first successful write <= NSTART.",
     "note": "Trusted: Lean kernel (+ propext, Classical.choice, Quot.sound), harness/sim_core.h + msg.c, Driver/Msg.lean, generators/oracles, "
             "the hand transcription M (checked on the cases run only).  NSTART <= 255 (con_active is a uint8_t).  'Not established' is "
             "produced on UDP sessions by setting session->state as a DTLS session would.  The double NACK of the first IN-FLIGHT message "
@@ -49,7 +60,9 @@ MANIFEST = {
             "(sessions with the real GnuTLS: C19).  The python in-flight ledger is the trace-side reading of the property (observation "
             "on the runs made); its model-side counterpart is the theorem in_flight_until_concluded over M.  Not modelled: the "
             "RFC 8974 extended-token probe (the other library-generated Confirmable whose RST takes the is_ext_token_rst path), keepalive "
-            "longer than ACK_TIMEOUT is not generated (the wait returned after a ping ignores the ping's own deadline: C06 territory).",
+            "longer than ACK_TIMEOUT is not generated (the wait returned after a ping ignores the ping's own deadline: C06 territory).  "
+            "Failing socket writes are modelled for UDP sessions and the base alphabet only (not together with shared tokens, ICMP, "
+            "keepalive, piggy-backed responses or DTLS sessions).",
     "design_ref": "DESIGN.md §4 C08, design/C08.md",
 }
 LEAN_MODULES = ["CoapVerif.Props.C08"]
@@ -66,7 +79,11 @@ REQUIRED_THEOREMS = ["wf_step", "con_active_eq_inflight", "inflight_le_nstart", 
                      # round 4: piggy-backed responses, DTLS sessions
                      "piggybacked_ack_concludes_only_its_own", "unmatched_piggybacked_ack_changes_only_output",
                      "con_active_eq_inflight_le_nstart_dtls", "no_idle_hold_dtls", "failure_dtls",
-                     "in_flight_until_concluded", "in_flight_until_concluded_run"]
+                     "in_flight_until_concluded", "in_flight_until_concluded_run",
+                     # round 6: failing socket writes (Model/MsgLayerW.lean), every write oracle
+                     "wf_step_w", "con_active_eq_inflight_le_nstart_w", "released_con_takes_slot_whatever_the_write_returns",
+                     "drain_with_failing_writes_is_drain_stopped_early", "held_fifo_exactly_once_w",
+                     "held_fifo_exactly_once_w_run", "no_idle_hold_w_partial"]
 RULE = ("scenario lines for harness/msg.c: bursts of 1..20 CON/NON on 1-3 UDP client sessions of one context, NSTART 1..4, "
         "scripted peer answering each transmission by ACK / RST / nothing, once or twice, after delays placed around the "
         "retransmission timers; stray and duplicated ACK/RST, NON with colliding ids, replies with invalid codes, "
@@ -79,11 +96,14 @@ RULE = ("scenario lines for harness/msg.c: bursts of 1..20 CON/NON on 1-3 UDP cl
         "word = 2), every burst size x NSTART also on a DTLS session; `dtls` lines (harness/dtls.c, real GnuTLS on both sides): 0..3 "
         "requests queued before the handshake + a burst b= of 1..6 CON/NON at the moment the client session is ESTABLISHED, default "
         "NSTART, five working credential configurations, per-datagram loss / duplication after (or during) the handshake; the corpus "
-        "of minimal defect witnesses; non-trivial = distinct line on which at least one message was held in "
+        "of minimal defect witnesses; lines with failing socket writes (fate x, UDP sessions, base alphabet): bursts of 3..8 CON x "
+        "NSTART 1..3 in which the k-th write fails (every k) and the application submits one more Confirmable 1..3000 ticks later, "
+        "and c08 scenarios with 1..5 failing writes at random positions; non-trivial = distinct line on which at least one message was held in "
         "the delay queue")
 TRUSTED_BASE = ["Lean 4.33 kernel; axioms allowed: propext, Classical.choice, Quot.sound (audited per theorem each run)",
                 "harness/sim_core.h + harness/msg.c, the scenario interpreter in Driver/Msg.lean, generators and oracles in vlib/msglib.py",
-                "M (Model/MsgLayer.lean + Model/MsgLayerX.lean over Model/SendQueue.lean) is a hand transcription of coap_send_pdu's gate, "
+                "M (Model/MsgLayer.lean + Model/MsgLayerX.lean + Model/MsgLayerW.lean (failing socket writes: coap_send_internal's goto "
+                "error, coap_retransmit, the loop of coap_session_connected incl. its break) over Model/SendQueue.lean) is a hand transcription of coap_send_pdu's gate, "
                 "coap_session_delay_pdu, coap_session_connected, coap_session_disconnected_lkd (both reasons), coap_cancel_all_messages, "
                 "the keepalive loop, coap_session_send_ping_lkd, the RST branch incl. is_ping_rst, the ACK branch + handle_response for "
                 "a piggy-backed response, the UDP / DTLS branch of coap_session_disconnected_lkd and every con_active update; "
@@ -260,6 +280,27 @@ def bursts(rng):
     return out
 
 
+def bursts_w(rng):
+    """failing socket writes, swept: a burst of n Confirmables against NSTART (the first NSTART go out in coap_send(), the
+    others are held and released one by one as the ACKs arrive), the k-th write handed to the socket FAILS - for every k: a
+    first transmission in coap_send() (refused), the first transmission of a RELEASED message in coap_session_connected()
+    (queued and counted whatever the write returns; the loop stops), the write after that - then, DT ticks later (before /
+    at / after the failed message's retransmission), the application submits one more Confirmable, which must queue up
+    behind the held ones."""
+    out = []
+    for nstart in (1, 2, 3):
+        for n in (3, 4, 6, 8):
+            for k in range(0, n + 2):
+                p = L.rand_params(rng)
+                d = rng.choice([0, 1, 10, 50])
+                fates = ["a%d" % d] * k + ["x"] + [rng.choice(["a%d" % d, "a%d" % d, "d", "a400"]) for _ in range(2 * n)]
+                evs = ["s:0:%s:%d:%d" % ("c" if j < nstart + 1 or rng.random() < 0.85 else "n", 300 + j, rng.randrange(256)) for j in range(n)]
+                dt = rng.choice([1, 20, 100, 999, 3000])
+                out.append("msg %s %s %s t:%d s:0:c:%d:%d g:3000" % (L.sess_word(p, nstart), ",".join(fates), " ".join(evs), dt, 300 + n,
+                                                                     rng.randrange(256)))
+    return out
+
+
 def generate(ctx, escalate=False):
     rng = ctx.rng
     n = 200000 if ctx.thorough() else 5000
@@ -269,6 +310,9 @@ def generate(ctx, escalate=False):
     out += [L.gen_scenario(rng, "c08") for _ in range(n)]
     # extended events: shared tokens cancelled by one separate response, ICMP errors, keepalive pings (and mixtures)
     out += [L.gen_scenario_x(rng) for _ in range(n // 2)]
+    # failing socket writes (write-failure model): the k-th write of a burst, random failures in c08 scenarios
+    out += bursts_w(rng)
+    out += [L.gen_scenario_w(rng) for _ in range(n // 4)]
     # DTLS sessions with the real GnuTLS: bursts on the session right after the handshake (C19's harness and model)
     out += gen_dtls(rng, 6000 if ctx.thorough() else 260)
     return out
@@ -283,6 +327,14 @@ def judge(ctx, c):
 
 
 def known(ctx, c):
+    # coap_session_connected(): the write of a NON taken out of the delay queue fails while no Confirmable of the session is in
+    # flight; `break` leaves the rest of the delay queue without anything that would ever send it (KNOWN_FINDINGS.txt, found by
+    # C06).  I = M on the events (the model transcribes the break); the oracle marks exactly this state with L.DRAIN_BREAK.
+    w = c["input"].split()
+    if (w[0] == "msg" and len(w) > 2 and "x" in w[2].split(",") and L.DRAIN_BREAK in (c.get("why") or "")
+            and c.get("impl") and c.get("model")):
+        if L.split_w(L.toks(c["impl"]))[0] == L.split_w(L.toks(c["model"]))[0]:
+            return "drain_break_strands_delayed"
     return None
 
 
@@ -314,6 +366,8 @@ def classify(c):
         k += ":pig"
     if any(p.count(".") == 6 and p.endswith(".2") for p in w[1].split(",")):
         k += ":dtls"
+    if "x" in w[2].split(","):
+        k += ":wfail"
     return k
 
 
@@ -331,6 +385,7 @@ def search(ctx, tie_breaks, proof):
             out.append(" ".join(w[:3] + evs))
     out += [L.gen_scenario(rng, "c08") for _ in range(3000)]
     out += [L.gen_scenario_x(rng) for _ in range(1500)]
+    out += [L.gen_scenario_w(rng) for _ in range(1000)]
     out += gen_dtls(rng, 300)
     return out
 
